@@ -215,9 +215,9 @@ def classify(t):
 
 
 def unit_tree(stmt_texts):
-    """nesting of program units from statement texts: list of (kind, name, children, in_module_contains)"""
+    """nesting of program units from statement texts: list of (kind, name, children, interface_bodies)"""
     root = []
-    stack = [('file', None, root)]
+    stack = [('file', None, root, [])]
     depth_other = []     # open type/interface blocks
     for s in stmt_texts:
         tag, data = classify(toks(s))
@@ -228,11 +228,12 @@ def unit_tree(stmt_texts):
                 depth_other.append('interface')
             elif depth_other[-1] == 'interface' and tag in ('subroutine', 'function'):
                 depth_other.append(tag)
+                stack[-1][3].append(data)
             elif tag == 'end' and data is None and depth_other[-1] in ('subroutine', 'function'):
                 depth_other.pop()
             continue
         if tag in ('module', 'subroutine', 'function'):
-            node = (tag, data, [])
+            node = (tag, data, [], [])
             stack[-1][2].append(node)
             stack.append(node)
         elif tag in ('type', 'interface'):
@@ -248,16 +249,34 @@ def known_classes(text, stmts=None):
         stmts = [s[0] for s in reader_stmts(text)]
     tree = unit_tree(stmts)
     out = []
-    # a module procedure with an internal procedure of the same kind, and a later module in the file
+    # a module procedure holds a nested END SUBROUTINE/FUNCTION (an internal procedure of any kind or an interface
+    # body) and another module follows in the file.  Over-approximation of the failing family: which of these files
+    # the ModulePattern regex actually derails on depends on its backtracking, which is not modelled.
     for i, top in enumerate(tree):
-        if top[0] == 'module' and any(any(g[0] == c[0] for g in c[2]) for c in top[2]) \
-                and any(t[0] == 'module' for t in tree[i + 1:]):
-            out.append('nested-contains-then-module')
+        if top[0] == 'module' and any(c[2] or c[3] for c in top[2]) and any(t[0] == 'module' for t in tree[i + 1:]):
+            out.append('nested-end-then-module')
             break
     return out
 
 
-SKIP_REGEX = {'nested-contains-then-module'}
+def unit_classes(hh):
+    """classes the program units were last parsed with after the history (mirror of Lean `runHistory`), None = still raw"""
+    u = None
+    for s in hh:
+        if u is not None:
+            u = u | set(s)
+        elif 'pu' in s:
+            u = set(s)
+    return u
+
+
+def block_class_alone(u):
+    return u is not None and bool(u & {'td', 'if'}) and not {'td', 'if', 'im', 'ca'} <= u
+
+
+FACT_CLASS = {'import': 'im', 'typedef': 'td', 'interface': 'if', 'call': 'ca', 'unit': 'pu'}
+
+SKIP_REGEX = {'nested-end-then-module'}
 
 
 # ------------------------------------------------------------------ generator: logical programs
@@ -650,16 +669,39 @@ class C19(Prop):
     props_module = 'LokiModel.Props.C19'
     findings_module = 'LokiModel.Findings.C19'
     driver = 'Drivers/C19.lean'
-    theorems = []
+    theorems = ['C19_classes_pinned', 'C19_patterns_pinned', 'C19_incremental_commutes_partial', 'C19_incremental_order_irrelevant',
+                'C19_incremental_two', 'C19_incremental_general', 'C19_layout_invariant_tokens', 'C19_toks_leading_blank',
+                'C19_reader_spans_ok', 'C19_reader_items_ok']
     design_ref = 'DESIGN.md 4.C C19'
     level = 'proof'
-    level_text = ''
-    level_note = ''
+    level_text = ('Theorems (Lean kernel): C19_incremental_commutes_partial / _order_irrelevant / _two — for every history whose first '
+                  'request contains ProgramUnitClass the visible discovery is that of the union of all requested classes, in any '
+                  'order and grouping; C19_incremental_general — what the code does for every history (requests before the first '
+                  'one with ProgramUnitClass are forgotten); C19_layout_invariant_tokens — discover depends on the statement lines '
+                  'only through their token lists, so every re-layout preserving the reader token lists preserves the discovery for '
+                  'every class set; C19_reader_spans_ok / _items_ok — every span the reader model emits is well formed; '
+                  'C19_classes_pinned / C19_patterns_pinned — regenerated RegexParserClass / Pattern.parser_class tables. '
+                  'NOT proved (correspondence only): that the concrete layout edits (& splits, ; joins, comments, indentation, '
+                  're-casing) preserve the token lists of the Reader model, and reader_sound in the form text = join of the span lines. '
+                  'The regular expressions are not modelled: REGEX = discover = FP is checked three-way on generated files.')
+    level_note = ('discover is a specification, not a model of the regexes; the Reader models fparser\'s free-form reader as used by '
+                  'FortranReader (hand-written, validated by correspondence on statement text and span). Inputs in class '
+                  'nested-end-then-module are excluded from the REGEX side of the correspondence (the class over-approximates the failing family).')
     technique = 'Lean 4 theorems about a hand-written reader model and a specification-level discovery + three-way correspondence'
-    rule = ''
-    trusted_base = []
-    assumptions = []
-    extra_obligations = []
+    rule = ('generated multi-unit files (modules with uses/typedefs with bindings and generics/interfaces/module procedures with '
+            'internal procedures, free routines; bodies with calls incl. inline IF and % chains, labels, strings and comments '
+            'containing keywords) rendered in 6 layouts (plain, comments, case, continuation, semicolon, wild) x 3 random request '
+            'histories of <= 3 class subsets; distinct by request line')
+    trusted_base = ['harness/props/c19.py facts_of (extraction of facts from real Sourcefile objects) and generator/renderer',
+                    'Lean driver evaluation of Reader/Discover']
+    assumptions = ['free-form sources without tab characters, INCLUDE lines, construct names on ;-joined pieces beyond what fparser extracts, '
+                   'or backslash-continued cpp directives',
+                   'generator main stream avoids REGEX fragilities observed but not classified: >1 blank before the name in END of an '
+                   'internal procedure, ; across block boundaries (REGEX AssertionError), !$ pragma lines between module procedures, '
+                   'generic bindings without a blank after => (fparser yields a truncated name)',
+                   'repository Fortran sources are not part of the generated inputs']
+    extra_obligations = ['reader: FortranReader.sanitized_lines == Lean stmts', 'fp: FP facts == discover all',
+                         'regex: REGEX facts == discover all', 'hist: REGEX facts after every history == Session view']
 
     def tables(self):
         members = [(m.name, m.value) for m in RC if m.name not in ('EmptyClass', 'AllClasses')]
@@ -672,7 +714,7 @@ class C19(Prop):
         return {'LokiModel/Generated/C19Tables.lean': '\n'.join(s)}
 
     def gen(self, rng, tier):
-        n = {'quick': 40, 'thorough': 600, 'search': 200}.get(tier, 40)
+        n = {'quick': 60, 'thorough': 350, 'search': 120}.get(tier, 60)
         for i in range(n):
             prog = gen_prog(rng, FEATS)
             lname = list(LAYOUTS)[i % len(LAYOUTS)]
@@ -689,7 +731,8 @@ class C19(Prop):
         out.append([A('regex')] + ([A('skipped')] if skip else run_regex(text, [allc])))
         hs = [A('hist')]
         for h in field(req, 'orders')[1:]:
-            hs.append(A('skipped') if skip else run_regex(text, [[str(c) for c in s] for s in h]))
+            hh = [[str(c) for c in s] for s in h]
+            hs.append(A('skipped') if skip or block_class_alone(unit_classes(hh)) else run_regex(text, hh))
         out.append(hs)
         return out
 
@@ -715,11 +758,15 @@ class C19(Prop):
             if dumps(a) != dumps(b):
                 c2 = 'request-before-program-units' if 'pu' not in hh[0] else cls
                 fails.append(Failure(f'history {hh} != single request {union}: {dumps(a)[:200]} vs {dumps(b)[:200]}', c2))
+            extra = [f for f in a if isinstance(f, list) and FACT_CLASS.get(head(f)) not in union]
+            if extra:
+                c3 = 'unrequested-classes-before-block' if block_class_alone(unit_classes(hh)) else cls
+                fails.append(Failure(f'history {hh} reports facts of classes never requested: {dumps(extra[0])}', c3))
         return fails
 
     def classes(self):
-        return ['nested-contains-then-module', 'request-before-program-units']
+        return ['nested-end-then-module', 'request-before-program-units', 'unrequested-classes-before-block']
 
 
 PROP = C19()
-READY = False
+READY = True
